@@ -191,6 +191,12 @@ impl Run {
             eprintln!("cannot write evidence {}: {}", evpath, e);
             return 2;
         }
+        if self.tier == "thorough" && new_violations == 0 {
+            // keep the record of the last clean deep run next to the (quick-tier) evidence that is committed
+            let tdir = format!("{}/thorough", evdir);
+            let _ = std::fs::create_dir_all(&tdir);
+            let _ = std::fs::write(format!("{}/{}.json", tdir, self.prop), serde_json::to_string_pretty(&ev).unwrap());
+        }
         for l in lines {
             println!("{}", l);
         }
